@@ -213,6 +213,11 @@ func valueImage(v reflect.Value, fieldName func(reflect.StructField) string) (im
 			}
 			return m, true
 		}
+		if kt := t.Key(); kt.Kind() == reflect.Ptr {
+			// pointer keys: whether a *string key makes the map "string-keyed" is not something
+			// the property settles; no image to compare with
+			return nil, false
+		}
 		var a []any
 		it := v.MapRange()
 		for it.Next() {
